@@ -20,11 +20,14 @@ type memoryQueue struct {
 	queue PriorityQueue
 	key   string
 	mutex sync.RWMutex
+	// first enqueue time per item: an item that is put back keeps its place in line
+	firstEnqueuedAt map[string]int64
 }
 
 func NewMemoryQueue(key string, _ time.Duration) publictypes.SharedQueueI {
 	memoryQueue := &memoryQueue{
-		key: fmt.Sprintf("%s%s", key, queueKeySuffix),
+		key:             fmt.Sprintf("%s%s", key, queueKeySuffix),
+		firstEnqueuedAt: map[string]int64{},
 	}
 	heap.Init(&memoryQueue.queue)
 	return memoryQueue
@@ -34,10 +37,15 @@ func (q *memoryQueue) Enqueue(item string, priority float64) error {
 	q.mutex.Lock()
 	defer q.mutex.Unlock()
 
+	timestamp, enqueuedBefore := q.firstEnqueuedAt[item]
+	if !enqueuedBefore {
+		timestamp = time.Now().UnixNano()
+		q.firstEnqueuedAt[item] = timestamp
+	}
 	heap.Push(&q.queue, &Item{
 		value:     item,
 		score:     calculateScore(priority),
-		timestamp: time.Now().UnixNano(),
+		timestamp: timestamp,
 	})
 	return nil
 }
@@ -64,6 +72,7 @@ func (q *memoryQueue) Remove(item string) {
 	q.mutex.Lock()
 	defer q.mutex.Unlock()
 
+	delete(q.firstEnqueuedAt, item)
 	for i, v := range q.queue {
 		if v.value == item {
 			heap.Remove(&q.queue, i)
